@@ -157,6 +157,8 @@ Sqrt(a) ==
              x0   == ShlLimbs(FromInt(ISqrtBin(top, 0, 4095) + 1), drop \div 2)  \* >= sqrt(a)
          IN SqrtIter(a, x0)
 
+U128MAX == Sub(Pow2(128), <<1>>)
+
 \* ---- fixed-width words (MelVM) ---------------------------------------------
 Wrap(a, w)  == Strip(SubSeq(a, 1, MinI(Len(a), w)))
 Pad(a, w)   == [i \in 1..w |-> Limb(a, i)]
